@@ -38,6 +38,7 @@ Kc(n) == [c |-> "const", v |-> Whole(n)]
 Fm(a) == [c |-> "formula", ast |-> a]
 N1 == NumLit(<<49>>)   N2 == NumLit(<<50>>)   N3 == NumLit(<<51>>)   N10 == NumLit(<<49, 48>>)
 
+DeepLen == 120
 ShapeDef(i) ==
   CASE i = "chain" ->
         [cells |-> ( A("S1", 1, 1) :> Kc(1) @@ A("S1", 4, 1) :> Kc(1)
@@ -93,8 +94,11 @@ ShapeDef(i) ==
     [] i = "named2" ->       \* two defined names standing for the same cell, both used by one formula
         [cells |-> ( A("S1", 1, 1) :> Kc(1) @@ A("S1", 1, 2) :> Kc(1)
                   @@ A("S1", 2, 2) :> Fm(Bin("+", NameRef("Rate"), NameRef("total_1")))
-                  @@ A("S1", 3, 1) :> Fm(Bin("*", RelRef(2, 2), CallN("COUNTA", <<Rng("", 1, 1, 1, 2)>>))) ),
-         names |-> ("Rate" :> Ref("S1", 1, 2, TRUE, TRUE) @@ "total_1" :> Ref("S1", 1, 2, TRUE, TRUE)),
+                  @@ A("S1", 3, 1) :> Fm(Bin("*", RelRef(2, 2), CallN("COUNTA", <<Rng("", 1, 1, 1, 2)>>)))
+                  \* a name spelt letters-then-digits that is no cell address (its "column" lies beyond XFD)
+                  @@ A("S1", 3, 2) :> Fm(Bin("+", NameRef("GROWTH2024"), N1)) ),
+         names |-> ("Rate" :> Ref("S1", 1, 2, TRUE, TRUE) @@ "total_1" :> Ref("S1", 1, 2, TRUE, TRUE)
+                    @@ "GROWTH2024" :> Ref("S1", 1, 1, TRUE, TRUE)),
          inputs |-> {A("S1", 1, 1), A("S1", 1, 2)}]
     [] i = "named" ->
         [cells |-> ( A("S1", 1, 1) :> Kc(1) @@ A("S1", 1, 2) :> Kc(1)
@@ -189,6 +193,14 @@ ShapeDef(i) ==
                   @@ A("S1", 2, 2) :> Fm(CallN("XIRR", <<Rng("", 5, 1, 5, 2), Rng("", 4, 1, 4, 2)>>))
                   @@ A("S1", 2, 3) :> Fm(Bin("+", RelRef(1, 1), N1)) ),
          names |-> <<>>, inputs |-> {A("S1", 1, 1)}]
+    [] i = "deep" ->         \* a chain deeper than any bound an implementation may put on its descent (DeepLen formula cells below the
+                             \* last one), with a side input halfway; evaluations are asked for near the top, in the middle and at the end
+        [cells |-> [a \in {A("S1", 1, r) : r \in 1..DeepLen} \cup {A("S1", 2, 1)} |->
+                      IF a = A("S1", 1, 1) \/ a = A("S1", 2, 1) THEN Kc(1)
+                      ELSE IF a[3] = DeepLen \div 2 THEN Fm(Bin("+", RelRef(1, a[3] - 1), Ref("", 2, 1, FALSE, FALSE)))
+                      ELSE Fm(Bin("+", RelRef(1, a[3] - 1), N1))],
+         names |-> <<>>, inputs |-> {A("S1", 1, 1), A("S1", 2, 1)},
+         targets |-> {A("S1", 1, 3), A("S1", 1, DeepLen \div 2 + 5), A("S1", 1, DeepLen)}]
     [] i = "cross" ->
         [cells |-> ( A("S1", 1, 1) :> Kc(1) @@ A("S 2", 1, 1) :> Kc(1)
                   @@ A("S 2", 2, 1) :> Fm(Bin("*", RelRef(1, 1), N3))
@@ -203,6 +215,8 @@ Names == DOMAIN ShapeDef(shape).names
 CellNames == {nm \in Names : ShapeDef(shape).names[nm].k = "ref"}          \* names standing for one cell
 Inputs == ShapeDef(shape).inputs
 FormulaCells == {c \in Cells : content[c].c = "formula"}
+\* the cells an instance asks evaluations of: every cell, unless the shape names some (the deep chain)
+EvalTargets == IF "targets" \in DOMAIN ShapeDef(shape) THEN ShapeDef(shape).targets ELSE Cells
 \* TRUE: equal to the initial 1 under a naive ==, but another value; 0: a value that "holds nothing" to a naive truth test
 \* "7": numeric-looking TEXT set over a number stays text.  NSet = n: the first n of the main list; NSet = 10 + n: the
 \* first n of the alternative list (configuration files select one of the two orders)
@@ -354,7 +368,7 @@ Next == \/ Persist
         \/ "extract" \in Ops /\ ~Closed /\ \E fc \in SUBSET Cells, fn \in SUBSET CellNames : Extract(fc, fn)
         \/ "set" \in Ops /\ \E a \in Inputs, i \in 1..Len(SetVals) : Set(a, SetVals[i])
         \/ "setname" \in Ops /\ \E nm \in Names, i \in 1..Len(SetVals) : SetByName(nm, SetVals[i])
-        \/ "evaluate" \in Ops /\ \E e \in 1..NEval, c \in Cells : Evaluate(e, c)
+        \/ "evaluate" \in Ops /\ \E e \in 1..NEval, c \in EvalTargets : Evaluate(e, c)
         \/ "get" \in Ops /\ \E c \in DOMAIN stored : Get(c)
 Spec == Init /\ [][Next]_vars
 
